@@ -190,7 +190,8 @@ GOTRANS = {"gocircuit": "GoCircuit", "gohopener": "GoHOpener", "gohcloser": "GoH
            "goneveropens": "GoNeverOpens", "gonevercloses": "GoNeverCloses", "gohopenercfg": "GoHOpenerCfg", "gohclosercfg": "GoHCloserCfg", "goslocfg": "GoSloCfg",
            "gorciclear": "GoRCIClear", "gorciadv": "GoRCIAdv", "gorciops": "GoRCIOps", "gotci": "GoTCI", "gocalli": "GoCallI",
            "goisbadrequest": "GoIsBadRequest", "gocircuiterror": "GoCircuitError", "gosimplebadrequest": "GoSimpleBadRequest",
-           "goatomicboolean": "GoAtomicBoolean", "goatomicint64": "GoAtomicInt64"}
+           "goatomicboolean": "GoAtomicBoolean", "goatomicint64": "GoAtomicInt64",
+           "gonewrc": "GoNewRC", "gonewrp": "GoNewRP", "gorcwall": "GoRCWall", "gorpsnap": "GoRPSnap", "godbiter": "GoDBIter", "gosdvar": "GoSDVar"}
 
 def regenerate(name):
     """re-run an extractor on REPO's working tree and (re)write lean/Generated/<file> if it changed.
